@@ -22,19 +22,24 @@ def c07_runs(tier):
         runs.append(McRun(BIN, 'idle_submit', dict(n=n, path=path, k=k, hold=hold), bound=bound, mode=mode, opts=opts, budget=budget))
 
     if quick:
-        # from the fully parked state, no preemption, all waiter picks: the quantifier of the statement
+        # from the fully parked state, no preemption, all waiter picks: the quantifier of the statement.
+        # Ordered so that the partial-group ring submissions and one run per path come first.
+        for path in ('tb', 'pfs', 'pfa'):
+            add(2, path, 1, 0, 0)
         for path in C07_PATHS:
-            for k in (1, 2, 3):
-                add(2, path, k, 0, 0)
+            add(2, path, 2, 0, 0)
+        add(2, 'tb', 3, 0, 0)
+        for path in ('q', 'cs', 'tb'):
             add(2, path, 2, 1, 0)
+        for path in ('s', 'q', 'b', 'ts', 'cs'):
+            add(2, path, 1, 0, 0)
+        for k in (1, 3):
+            add(3, 'tb', k, 0, 0)
+        for path in ('q', 'tb', 'cs', 'pfa'):
             add(1, path, 1, 0, 0)
-        for path in ('q', 'tb', 'pfs', 'cs'):
-            for k in (1, 3):
-                add(3, path, k, 0, 0)
         # one preemption on top (the producer racing the workers it has just woken)
-        for path in ('q', 'cs'):
-            for hold in (0, 1):
-                add(2, path, 2, hold, 1)
+        add(2, 'q', 2, 1, 1)
+        add(2, 'cs', 2, 0, 1)
         add(1, 'q', 2, 0, 1)
     else:
         for n in (1, 2, 3):
@@ -59,7 +64,7 @@ def c07_runs(tier):
 
 reg('C07', level='model_checking', runs=c07_runs, quick_budget_s=240, thorough_budget_s=1500,
     technique='stateless model checking of the real ThreadPool/TaskSet/parallel_for code: the pool is brought to the state "every worker blocked in its futex wait", timed waits are then forbidden to expire, one producer submits without waiting, and every kernel choice of which futex waiters a FUTEX_WAKE reaches is explored at no cost',
-    level_text='pools of 1-3 threads x {pool.schedule, schedule(ForceQueuingTag), pool.scheduleBulk, TaskSet::schedule, TaskSet::scheduleBulk (ring fast path for k<=N, central queue for k=N+1), ConcurrentTaskSet(kHeavy)::schedule (steal ring), parallel_for(wait=false) static and adaptive} x k=1..N+1 tasks x {short bodies, bodies that stay busy until min(k,N) of them run}; all futex waiter picks. quick: 0 preemptions on N=2 (all paths, k=1..3, busy bodies for k=2), N=1 k=1 and N=3 {q,tb,pfs,cs} k in {1,3}, plus 1 preemption on N=2 k=2 {q,cs} and N=1 k=2 q. thorough: the whole matrix with 0 preemptions (N=1: 1), 1 preemption on every N=2 path for k in {1,2}, N=3 k=1 {q,tb}, 2 on N=1 k=2 {q,tb}. Oracle: every task body starts (task sets drain) while no timed wait may expire; a state with an unstarted task and every thread parked is a deadlock verdict = "depends on the backstop".',
+    level_text='pools of 1-3 threads x {pool.schedule, schedule(ForceQueuingTag), pool.scheduleBulk, TaskSet::schedule, TaskSet::scheduleBulk (ring fast path for k<=N, central queue for k=N+1), ConcurrentTaskSet(kHeavy)::schedule (steal ring), parallel_for(wait=false) static and adaptive} x k=1..N+1 tasks x {short bodies, bodies that stay busy until min(k,N) of them run}; all futex waiter picks. quick: 0 preemptions on N=2 (every path with k=2, the ring paths and the central-queue paths with k=1, busy bodies on {q,cs,tb}), N=3 tb k in {1,3}, N=1 k=1 on four paths, plus 1 preemption on N=2 k=2 {q busy bodies, cs} and N=1 k=2 q. thorough: the whole matrix with 0 preemptions (N=1: 1), 1 preemption on every N=2 path for k in {1,2}, N=3 k=1 {q,tb}, 2 on N=1 k=2 {q,tb}. Oracle: every task body starts (task sets drain) while no timed wait may expire; a state with an unstarted task and every thread parked is a deadlock verdict = "depends on the backstop".',
     level_note='the all-parked precondition is established exactly (T0 sleeps in virtual time, which can only expire when every worker is blocked in futex_wait); wake group size is the default 8, so pools of <=3 threads are a single wake group (a -DDISPENSO_TUNE_WAKE_GROUP_SIZE=2 build was run by hand, see harness/c03_lifecycle.notes.md)',
     design_ref='DESIGN.md section 4, C07', assumptions=MC_ASSUME, rule=RULE,
     guards=[need_cover('ring_fast_path', 'bulk_central_queue'), need_outcomes(4)])
@@ -87,18 +92,20 @@ def c09_runs(tier):
         runs.append(McRun(BIN, 'lifecycle', cfg, bound=bound, mode=mode, budget=budget))
 
     if quick:
+        for op in ('d', 'r1', 'r3', 'w1'):
+            add(dict(n=2, poll=0, op=op, task=2, when=2), 1)
         for op in ('d', 'r0', 'r2', 'w0', 'w1'):
-            for task, when in ((0, 0), (0, 2), (2, 1)):
-                add(dict(n=1, poll=0, op=op, task=task, when=when), 2)
+            add(dict(n=1, poll=0, op=op, task=0, when=0), 2)
+            add(dict(n=1, poll=0, op=op, task=0, when=2), 2)
             add(dict(n=1, poll=1, op=op, task=0, when=0), 2)
+        for op in ('d', 'r2', 'w1'):
+            add(dict(n=1, poll=0, op=op, task=2, when=1), 2)
             add(dict(n=1, poll=1, op=op, task=2, when=0), 1)
         add(dict(n=1, poll=0, op='d', task=1, when=0), 2)
         for op in ('d', 'r1', 'r3', 'w1'):
-            for task, when in ((0, 1), (2, 0), (2, 2)):
-                add(dict(n=2, poll=0, op=op, task=task, when=when), 1)
+            add(dict(n=2, poll=0, op=op, task=0, when=1), 1)
             add(dict(n=2, poll=1, op=op, task=0, when=0), 1)
-        for op in ('d', 'r2'):
-            add(dict(n=3, poll=0, op=op, task=2, when=2), 0)
+        add(dict(n=3, poll=0, op='d', task=2, when=2), 0)
     else:
         for cfg in c09_configs(1, False):
             add(cfg, 2, budget=90)
@@ -121,7 +128,7 @@ def c09_runs(tier):
 
 reg('C09', level='model_checking', runs=c09_runs, quick_budget_s=300, thorough_budget_s=1800,
     technique='stateless model checking of the real ThreadPool: ~ThreadPool / resize(n) / setSignalingWake(b) issued at every point of the worker loop reachable within the preemption bound, with timed futex waits forbidden to expire in wake mode (in poll mode the 200 us poll period is the mechanism and the oracle is termination)',
-    level_text='N in {1,2,3} x {wake mode, poll mode} x {no task, one task submitted and not awaited, one task whose body is running} x {call issued at once, at the last worker\'s enterSleep, with every worker blocked in futex_wait} x {destroy, resize(0), resize(N-1), resize(N+1), setSignalingWake(false,200us), setSignalingWake(true)}; all interleavings with <=2 deviations for N=1 (3 on three shapes in thorough), <=1 for N=2, the default schedules plus all free switches for N=3; quick runs a 58-configuration subset of the 130-configuration thorough matrix; every execution ends with a second shutdown of the freshly started workers. Oracle: the call returns (a worker left parked shows as T0 blocked in join = deadlock verdict), afterwards live modelled threads == 1 + new size, numThreads() == new size, a queued task has run when ~ThreadPool returns.',
+    level_text='N in {1,2,3} x {wake mode, poll mode} x {no task, one task submitted and not awaited, one task whose body is running} x {call issued at once, at the last worker\'s enterSleep, with every worker blocked in futex_wait} x {destroy, resize(0), resize(N-1), resize(N+1), setSignalingWake(false,200us), setSignalingWake(true)}; all interleavings with <=2 deviations for N=1 (3 on three shapes in thorough), <=1 for N=2, the default schedules plus all free switches for N=3; quick runs a 39-configuration subset of the 132-configuration thorough matrix; every execution ends with a second shutdown of the freshly started workers. Oracle: the call returns (a worker left parked shows as T0 blocked in join = deadlock verdict), afterwards live modelled threads == 1 + new size, numThreads() == new size, a queued task has run when ~ThreadPool returns.',
     level_note='timeouts are switched off only when the call under test begins: a submission racing a worker that is just parking may legitimately need the backstop (documented in thread_pool.h) and is not the subject of C09',
     design_ref='DESIGN.md section 4, C09', assumptions=MC_ASSUME, rule=RULE,
     guards=[need_cover('destroy', 'grow', 'to_zero', 'to_poll', 'to_wake', 'worker_busy', 'at_enter_sleep', 'all_parked'), need_outcomes(4)])
